@@ -63,7 +63,12 @@ type item struct {
 	open   bool // first half of `var a, b = x, y`, waiting for the second
 }
 
-var indirectKinds = []string{"func", "chain", "method", "ptrmethod", "methodval", "methodexpr", "funcref", "cycle", "cycle"}
+var indirectKinds = []string{"func", "chain", "method", "ptrmethod", "methodval", "methodexpr", "funcref", "cycle", "cycle", "recvcall"}
+
+// receiverKinds: the variable is read by the receiver operand of a method call
+// or method value written in the initialiser itself (a reference as visible as
+// a direct one, but reached through the operand of a method selector).
+var receiverKinds = []string{"recvconv", "recvval", "recvlit", "recvptr", "recvindex"}
 
 var sevenBits = rapid.SliceOfN(rapid.Bool(), 7, 7)
 
@@ -291,6 +296,8 @@ func (g *gen) drawTerms(p *gpkg) {
 				tm.kind = "direct"
 			case r < 40:
 				tm.kind = "closure"
+			case r < 52:
+				tm.kind = receiverKinds[pct(t, "recvkind")*len(receiverKinds)/100]
 			default:
 				tm.kind = indirectKinds[pct(t, "indirect")*len(indirectKinds)/100]
 			}
@@ -340,7 +347,13 @@ func (g *gen) drawDeclOrder(p *gpkg) {
 	p.decl = order
 }
 
-func visibleKind(k string) bool { return k == "direct" || k == "closure" }
+func visibleKind(k string) bool {
+	switch k {
+	case "direct", "closure", "recvconv", "recvval", "recvlit", "recvptr", "recvindex":
+		return true
+	}
+	return false
+}
 
 func (g *gen) unitOf(p *gpkg) map[int]int {
 	m := map[int]int{}
@@ -675,6 +688,36 @@ func (g *gen) render(p *gpkg) {
 					inner = name + "()"
 				}
 				parts = append(parts, inner)
+			case "recvconv", "recvval":
+				tn := g.helperName("t")
+				helpers = append(helpers, item{text: fmt.Sprintf("type %s int\n", tn)})
+				helpers = append(helpers, item{text: fmt.Sprintf("func (r %s) get() int { return int(r) + %d }\n", tn, tm.k)})
+				if tm.kind == "recvconv" {
+					parts = append(parts, fmt.Sprintf("%s(%s).get()", tn, r))
+				} else {
+					need["call"] = true
+					parts = append(parts, fmt.Sprintf("call(%s(%s).get)", tn, r))
+				}
+			case "recvlit", "recvptr", "recvindex", "recvcall":
+				tn := g.helperName("t")
+				recv := "r " + tn
+				if tm.kind == "recvptr" {
+					recv = "r *" + tn
+				}
+				helpers = append(helpers, item{text: fmt.Sprintf("type %s struct{ n int }\n", tn)})
+				helpers = append(helpers, item{text: fmt.Sprintf("func (%s) get() int { return r.n + %d }\n", recv, tm.k)})
+				switch tm.kind {
+				case "recvlit":
+					parts = append(parts, fmt.Sprintf("%s{%s}.get()", tn, r))
+				case "recvptr":
+					parts = append(parts, fmt.Sprintf("(&%s{%s}).get()", tn, r))
+				case "recvindex":
+					parts = append(parts, fmt.Sprintf("[]%s{{%s}}[0].get()", tn, r))
+				default:
+					mk := g.helperName("f")
+					helpers = append(helpers, item{text: fmt.Sprintf("func %s() %s { return %s{%s} }\n", mk, tn, tn, r)})
+					parts = append(parts, mk+"().get()")
+				}
 			case "method", "ptrmethod", "methodval", "methodexpr":
 				tn := g.helperName("t")
 				recv := "r " + tn
